@@ -87,6 +87,7 @@ package rr
 
 //@ func gr4j(rainfall, pet, s0, r0, n1, n2, q1State, q9State, x1, x2, x3, x4, runoff) returns (rS, rR, rN1, rN2, rQ1, rQ9)
 //@   locals nDays, S, Ps, Es, Pr, R, SH1, i, i, UH1, i, SH2, UH2, i, Perc, idx, day, netRainfall, netET, Q1, Q9, Tp, Qd, Qr, ech, todaysRainfall, todaysPET, ws, tws, i, i, i, i, qtot
+//@   loopsigs 486f37ef bba0d4e4 f399b9e9 c62663b1 2968b90a 102504dd f0a6638f 82440357 63b34a5a 4f6b73af
 //@   canary [C15.canary-gr4j] rS == s0
 //@   kernel
 //@   states s0, r0, n1, n2, q1State, q9State
@@ -141,6 +142,7 @@ package rr
 // copies are tied to the states by a proved invariant.
 //@ func sacramento
 //@   locals nDays, qq, dro, saved, alzfsm, alzfpm, pbase, alzfsc, alzfpc, idx, timestep, evapt, pliq, e1, e2, a, b, e3, e5, del, roimp, pav, adj, itime, duz, flobf, flosf, floin, hpl, ii, ninc, dinc, pinc, dlzp, dlzs, inc, ratio, addro, bf, lzair, perc, del, perctw, percfw, ratlp, ratls, percs, flwsf, j, k, flwbf, baseflowFraction, qf, e4, bf
+//@   loopsigs 56a540f0 20f03c56 c914fa1e 7dd3dc15 f21f896b
 //@   noalias
 //@   panics allowed
 //@   kernel
@@ -209,6 +211,7 @@ package rr
 
 //@ func (*GR4J).Run(m, inputs, states, outputs)
 //@   locals inputDims, numCells, numStates, numInputSequences, inputLen, cellInputsShape, inputNewShape, outputStepSlice, outputSizeSlice, statesSizeSlice, inputsSizeSlice, doneChan, j, outputPosSlice, statesPosSlice, inputsPosSlice, x1, x2, x3, x4, initialStates, s, r, n1, n2, q1, q9, cellInputs, rainfall, pet, runoff, j
+//@   loopsigs 6e14aa20 e11cefee
 //@   ndmodel locations
 //@   requires inputs.rank == 3 && states.rank == 2 && outputs.rank == 3
 //@   requires inputs.dim(0) >= 1 && inputs.dim(1) == 2 && inputs.dim(2) >= 0 && states.dim(0) >= 0 && states.dim(1) >= 4
